@@ -20,7 +20,9 @@ Imports == {"asis", "local", "decoy"}   \* decoy: an unrelated function imports 
 \* line) the expression of the touched statement written twice, as a pair, on the same line
 \* "multiline": a parenthesised comparison / boolean / arithmetic expression of the touched statement is broken over
 \* two lines after its operator (legal only inside the parentheses: a rewrite that drops them must re-join the lines)
-Args    == {"asis", "kwspread-last", "kwspread-mid", "extra-kw", "dict-spread", "same-line-pair", "multiline"}
+\* "list-elements": the call of the touched statement becomes two elements of a list literal laid out one per line (a site
+\* that starts on a continuation line of its statement)
+Args    == {"asis", "kwspread-last", "kwspread-mid", "extra-kw", "dict-spread", "same-line-pair", "multiline", "list-elements"}
 
 VARIABLES v, st
 
